@@ -24,7 +24,10 @@ Definition graph := lgraph nattr eattr.
 Record item := MkItem { it_id : N; it_attr : list Z; it_graph : graph }.
 
 (** how the pre-grouping attribute is read: attribute_key=None | str values | list values *)
-Inductive attr_mode := ANone | AStr | AList.
+Inductive attr_mode := ANone | AStr | AList | AMixed.
+(** AMixed (round 4, after the repair of the per-list normalisation): every value is normalised on its own.  The
+    encoder tags the value: 0 :: codes = str, 1 :: elements = list or tuple (read as a multiset), 2 = attribute absent,
+    3 :: item codes = dict / OrderedDict (read as the multiset of its items), 5 :: [n] = int. *)
 
 (* ---------- graph_isomorphism ---------- *)
 Definition getd (d : N) (o : option N) : N := match o with Some x => x | None => d end.
@@ -75,12 +78,18 @@ Fixpoint insertZ (x : Z) (l : list Z) : list Z :=
 Definition sortZ (l : list Z) : list Z := fold_right insertZ [] l.
 
 (** GraphCluster.iterative_cluster: [1]*n | attributes | [sorted(v) for v in attributes] *)
+Definition norm_value (a : list Z) : list Z :=
+  match a with
+  | 1%Z :: r => 1%Z :: sortZ r
+  | 3%Z :: r => 3%Z :: sortZ r
+  | _ => a
+  end.
 Definition gc_key (mode : attr_mode) (x : item) : list Z :=
-  match mode with ANone => [] | AStr => it_attr x | AList => sortZ (it_attr x) end.
+  match mode with ANone => [] | AStr => it_attr x | AList => sortZ (it_attr x) | AMixed => norm_value (it_attr x) end.
 (** BatchCluster.lib_check / _attribute_key: sorted(value) if isinstance(value, list) else value
     (after repair 6f9daf3; before it the raw list was compared) *)
 Definition bc_key (mode : attr_mode) (x : item) : list Z :=
-  match mode with ANone => [] | AStr => it_attr x | AList => sortZ (it_attr x) end.
+  match mode with ANone => [] | AStr => it_attr x | AList => sortZ (it_attr x) | AMixed => norm_value (it_attr x) end.
 
 Definition memb (i : nat) (l : list nat) : bool := existsb (Nat.eqb i) l.
 
